@@ -195,6 +195,8 @@ def register(reg, prog):
     reg.externals['_stat.S_ISDIR'] = reg.externals['stat.S_ISDIR']
     reg.externals['_stat.S_ISREG'] = reg.externals['stat.S_ISREG']
     reg.externals['mimetypes.guess_type'] = lambda ex, st, args, kw, node: [(st, VTuple([VOpt(STR, fresh(Opt(STR), 'mime')), VNone()]))]
+    reg.externals['PathI.absolute'] = lambda ex, st, args, kw, node: [(st, args[0])]      # A-FS: same abstract path
+    reg.externals['PathI.resolve'] = reg.externals['PathI.absolute']
     reg.externals['str.startswith'] = lambda ex, st, args, kw, node: [(st, VBool(z3.Function('str_startswith', StrS, StrS, Bo)(args[0].t, args[1].t)))]
     reg.externals['ObsMapI.__contains__'] = None
     reg.externals['ObsMapI.__contains__'] = lambda ex, st, c, item: z3.Bool(fresh_name('observed'))
@@ -234,6 +236,11 @@ def register(reg, prog):
                 if z3.is_app(p.t) and p.t.decl().kind() == z3.Z3_OP_SELECT and p.t.arg(0).eq(arr):
                     ok = z3.Or(ok, b.t == L.t)
             g.append(('confined(%s)' % op, ok))
+            # the parent directory of the request path, a temporary file in it, and any modification stay inside the root only if
+            # the request path is strictly below the root: an empty Uri-Path names the root itself, whose parent is outside
+            below_root = ex.truth(s, ex.spec_val(s, 'len(old(request.opt.uri_path)) >= 1', env=env, old_st=entry))
+            if op in MODIFYING:
+                g.append(('modifications-only-for-paths-below-the-root(%s)' % op, below_root))
             if op in MODIFYING:
                 g.append(('write-permission-checked-before(%s)' % op, write))
             if op == 'rename':
